@@ -40,6 +40,10 @@ CLASSES = [("P", 60), ("P", 0), ("S", 60), ("I", 60), (None, 60), ("P", 255)]  #
 QUALS = [(4, 8, 0, 4, "2=2X2=2D"), (8, 8, 4, 12, "8="), (8, 8, 0, 16, "4=4=")]  # the last: columns say perfect, the CIGAR has two runs
 
 
+# nine further optional fields in front of cg / tp in the 'type after the CIGAR' records: a record may carry any number of fields
+FILLER = ["AS:i:8", "dv:f:0.0", "id:f:1.0", "s1:i:8", "s2:i:0", "rl:i:0", "zd:i:0", "cm:i:2", "de:f:0.0"]
+
+
 def alphabet():
     out = []
     # two read names with the same CRC-32 (a table keyed by a 32-bit checksum of the name would merge them); a third
@@ -52,7 +56,7 @@ def alphabet():
     # the alignment type after the CIGAR (the order of optional fields is free)
     for tp in ("S", "I", "P"):
         matches, block, qs, qe, cg = QUALS[1]
-        out.append(rgfa.Rec("plumless", 16, qs, qe, "+", ">s1", 20, 0, 8, matches, block, 60, ["NM:i:0", f"cg:Z:{cg}", f"tp:A:{tp}"]))
+        out.append(rgfa.Rec("plumless", 16, qs, qe, "+", ">s1", 20, 0, 8, matches, block, 60, ["NM:i:0"] + FILLER + [f"cg:Z:{cg}", f"tp:A:{tp}"]))
     for read in ("plumless", "buckeroo"):
         # a primary record of the same read name with another query length (names are cut at the first blank, so parts of one
         # read share a name): span 8 of 32; and a primary record without a single matching base
